@@ -126,6 +126,9 @@ func (l *Layout) exprIn(e *Expr, outer int, needParens bool) string {
 		s = `"` + e.S + `"`
 	case "null":
 		s = "null"
+	case "special":
+		s = map[string]string{"inf": "(1 / 0)", "neginf": "(-1 / 0)", "nan": "(0 / 0)", "huge": "99999999999999999999",
+			"neghuge": "-99999999999999999999", "big": "4611686018427387904", "negbig": "-4611686018427387904"}[e.S]
 	case "var":
 		s = "$" + e.S
 	case "neg":
